@@ -281,11 +281,66 @@ def _r4(ctx):
             else:
                 ctx.node_ok("R4", f, n, "`%s` (set-ordered) is only tested for membership" % var)
     ctx.floor("R4", "set constructions in report code", n_sets, 1)
-    # dict output: Flags list order (not part of the text report)
-    t = ctx.func("ArchSemantics.assign_tp_lt")
-    if pm.find("flags = list(set(flags))", t.node):
-        ctx.note("R4: instruction flags are de-duplicated with list(set(...)): the YAML 'Flags' list has a per-process "
-                 "order (hash randomisation of str); the text report only tests membership")
+
+
+def _set_ordered(e):
+    """Does expression `e` produce a sequence whose order is the iteration order of a set (not passed through sorted)?"""
+    if isinstance(e, ast.Call) and isinstance(e.func, ast.Name) and e.func.id in ("list", "tuple") and len(e.args) == 1:
+        a = e.args[0]
+        if isinstance(a, (ast.Set, ast.SetComp)):
+            return True
+        if isinstance(a, ast.Call) and isinstance(a.func, ast.Name) and a.func.id in ("set", "frozenset"):
+            return True
+        if isinstance(a, ast.Call) and isinstance(a.func, ast.Attribute) and a.func.attr in (
+                "intersection", "union", "difference", "symmetric_difference"):
+            return True
+        if isinstance(a, ast.BinOp) and isinstance(a.op, (ast.BitAnd, ast.BitOr, ast.Sub, ast.BitXor)) and (
+                _set_ordered(ast.Call(func=ast.Name(id="list"), args=[a.left], keywords=[]))
+                or _set_ordered(ast.Call(func=ast.Name(id="list"), args=[a.right], keywords=[]))):
+            return True
+    if isinstance(e, (ast.ListComp, ast.GeneratorExp)) and e.generators:
+        it = e.generators[0].iter
+        if isinstance(it, (ast.Set, ast.SetComp)) or (isinstance(it, ast.Call) and isinstance(it.func, ast.Name)
+                                                      and it.func.id in ("set", "frozenset")):
+            return True
+    return False
+
+
+def _r5(ctx):
+    """The machine-readable output serialises attributes of the instruction forms; a list whose order is the iteration order
+    of a set of strings differs from process to process (hash randomisation)."""
+    ctx.rule("R5", "no set-ordered sequence is stored into a field that the machine-readable output serialises")
+    fd = ctx.func("Frontend.full_analysis_dict")
+    comps = [g for g in ast.walk(fd.node) if isinstance(g, ast.comprehension) and U(g.iter) == fd.params()[1]]
+    if not comps:
+        ctx.unknown("R5", "serialised fields", fd.where(), "the per-line comprehension over the kernel was not found in full_analysis_dict")
+        return
+    fields = sorted({n.attr for g in comps for n in ast.walk(fd.node) if isinstance(n, ast.Attribute) and U(n.value) == U(g.target)})
+    ctx.floor("R5", "instruction-form fields serialised by full_analysis_dict", len(fields), 5)
+    n_stores = 0
+    for f in ctx.repo.all_funcs():
+        if f.file.startswith("osaca/data/"):
+            continue
+        flow = None
+        for n in ast.walk(f.node):
+            tgts = n.targets if isinstance(n, ast.Assign) else [n.target] if isinstance(n, ast.AugAssign) else []
+            for t in tgts:
+                if not (isinstance(t, ast.Attribute) and t.attr.lstrip("_") in fields):
+                    continue
+                n_stores += 1
+                flow = flow or C.flow_of(f)
+                vals = [n.value]
+                try:
+                    vals += [x for x in flow.expand(n.value, 4) if isinstance(x, ast.AST)]
+                except Exception:
+                    pass
+                bad = [v for v in vals for x in ast.walk(v) if _set_ordered(x)]
+                if bad:
+                    ctx.touch(f)
+                    ctx.node_bad("R5", f, n, "`%s` stores a sequence in set iteration order (`%s`) into the field '%s', which "
+                                 "full_analysis_dict writes to the YAML output: for string elements that order changes with the "
+                                 "interpreter's hash seed, so two runs of the same command differ" % (U(n)[:80], U(bad[0])[:60], t.attr))
+    ctx.ok("R5", "%d stores into the %d serialised fields examined: %s" % (n_stores, len(fields), fields), fd.where())
 
 
 def run(ctx):
@@ -295,3 +350,4 @@ def run(ctx):
     _r2(ctx, f)
     _r3(ctx, f)
     _r4(ctx)
+    _r5(ctx)
